@@ -247,7 +247,22 @@ where
         match engine.open_inner().await {
             Ok(_) => Ok(engine),
             Err(error) => {
-                match engine.close_connection(None).await {
+                // A frame that is illegal before the remote Open closes the connection with an
+                // error
+                let close_error = match &error {
+                    OpenError::IllegalState => Some(definitions::Error::new(
+                        AmqpError::IllegalState,
+                        None,
+                        None,
+                    )),
+                    OpenError::NotImplemented(description) => Some(definitions::Error::new(
+                        AmqpError::NotImplemented,
+                        description.clone(),
+                        None,
+                    )),
+                    _ => None,
+                };
+                match engine.close_connection(close_error).await {
                     Ok(_) => Err(error),
                     Err(error) => match error {
                         ConnectionInnerError::TransportError(e) => {
